@@ -613,7 +613,8 @@ fn gen_case(rng: &mut Rng, ctx: &Ctx, pools: &Pools) -> CliCase {
         entry = Some(spelled);
     }
     let mut output = None;
-    if rng.chance(0.35) && !use_stdin {
+    // (with --stdin the only positional argument is the output file)
+    if rng.chance(0.35) && (!use_stdin || rng.chance(0.5)) {
         let o = match rng.below(100) {
             0..=5 => "no-such-dir-for-output/out.css".to_string(),
             // not a regular file: a pipe reached through /dev/stdout, the null device
@@ -624,6 +625,8 @@ fn gen_case(rng: &mut Rng, ctx: &Ctx, pools: &Pools) -> CliCase {
                 files.push(("outdir/.keep".into(), vec![]));
                 "outdir/out.css".to_string()
             }
+            // the name of the output file says nothing about what is written into it
+            23..=52 => (*rng.pick(&["out.min.css", "out.min.css", "out.min.css", "site.min.css", "out.sass", "out.scss", "out", "o.u.t.css", "out.css.map", "OUT.CSS", "compressed.css", "expanded.txt"])).to_string(),
             _ => "out.css".to_string(),
         };
         argv.push(o.clone());
